@@ -69,6 +69,11 @@ template <class A> static void spot(A& f, int lo, int hi, const char* name) {
     snprintf(g_cur, 256, "%s subtract(%lu,%lu)", rg, a, b); if (f.sub(a, b) != (a + P - b) % P) fail(std::string(g_cur) + " = " + std::to_string(f.sub(a, b)));
     snprintf(g_cur, 256, "%s multiply(%lu,%lu)", rg, a, b); if (f.mul(a, b) != (UL)((unsigned __int128)a * b % P)) fail(std::string(g_cur) + " = " + std::to_string(f.mul(a, b))); }
   for (long e : {-2147483647L - 1, -2147483647L, -1L, 2147483647L, 4294967295L, -4294967296L, 9223372036854775807L}) { ++total; snprintf(g_cur, 256, "%s convert(%ld,0)", rg, e); long m = e % (long)P; if (m < 0) m += P; if (f.conv(e) != (UL)m) fail(std::string(g_cur) + " = " + std::to_string(f.conv(e)) + ", residue is " + std::to_string(m)); }
+  { long o[5]; if (f.mixed(0, 0, o)) for (long v : {-2147483647L - 1, -2147483647L, -1L, -2L, 0L, 1L, 2147483647L}) for (UL b : xs) { if (b >= P) continue; long m = v % (long)P; if (m < 0) m += P; f.mixed(v, b, o); total += 4;
+      snprintf(g_cur, 256, "%s integer + element(%ld,%lu)", rg, v, b); if ((UL)(unsigned)o[0] != (UL)((m + b) % P)) fail(std::string(g_cur) + " = " + std::to_string((unsigned)o[0]));
+      snprintf(g_cur, 256, "%s integer - element(%ld,%lu)", rg, v, b); if ((UL)(unsigned)o[1] != (UL)((m + P - b) % P)) fail(std::string(g_cur) + " = " + std::to_string((unsigned)o[1]));
+      snprintf(g_cur, 256, "%s integer * element(%ld,%lu)", rg, v, b); if ((UL)(unsigned)o[2] != (UL)((unsigned __int128)m * b % P)) fail(std::string(g_cur) + " = " + std::to_string((unsigned)o[2]));
+      snprintf(g_cur, 256, "%s integer == element(%ld,%lu)", rg, v, b); if ((o[3] != 0) != ((UL)m == b) || (o[4] != 0) != ((UL)m == b)) fail(std::string(g_cur) + " is " + std::to_string(o[3]) + "/" + std::to_string(o[4])); } }
   for (UL x : xs) { if (x >= P) continue;
     ++total; snprintf(g_cur, 256, "%s get_inverse(%lu,0)", rg, x); UL v = f.inv(x); bool ok = v < P; for (int q : pr) { if (x % q != 0) { if ((x % q) * (v % q) % q != 1) ok = false; } else if (v % q != 0) ok = false; }
     if (!ok) fail(std::string(g_cur) + " = " + std::to_string(v) + ": not the inverse modulo every prime of the range not dividing the element");
